@@ -508,6 +508,27 @@ def apply_op(ctx, w, op):
       for l in w.folded():
         w.clock[l.name] += 1
       w.check_clock("after-training-call")
+  elif k == "FIT":
+    # the REAL Keras training loop (optimizer, traced train_function) instead
+    # of bare training calls: the step clock must advance once per batch and
+    # inference afterwards must still equal the folded reference
+    import tf_keras as keras
+    n = int(op.get("steps", 2))
+    g = np.random.Generator(np.random.PCG64(int(op.get("xseed", 0))))
+    x = g.standard_normal((2 * n,) + IN_SHAPE).astype(np.float32)
+    yshape = tuple(w.model.output_shape[1:])
+    y = g.standard_normal((2 * n,) + yshape).astype(np.float32)
+    if not getattr(w.model, "_verif_compiled", False):
+      w.model.compile(optimizer=keras.optimizers.SGD(0.01), loss="mse")
+      w.model._verif_compiled = True
+    ok, _ = guard(ctx, "folded-model-fit", lambda: w.model.fit(
+        x, y, batch_size=2, epochs=1, shuffle=False, verbose=0), always=True)
+    ctx.fault("real_fit")
+    set_phase(0)
+    if ok:
+      for l in w.folded():
+        w.clock[l.name] += n
+      w.check_clock("after-real-fit")
   elif k == "JUMP":
     for l in w.folded():
       d = l.ema_freeze_delay
@@ -633,10 +654,12 @@ def generate(rng):
   ops = [{"k": "INFER", "xseed": rng.subseed()}] if rng.chance(0.5) else []
   for _ in range(rng.randrange(3, 12)):
     k = rng.wpick([("TRAIN", 5), ("INFER", 5), ("JUMP", 2), ("STATS", 2),
-                   ("RESTART", 1), ("UNFOLD", 1)])
+                   ("RESTART", 1), ("UNFOLD", 1), ("FIT", 0.8)])
     op = {"k": k}
-    if k in ("INFER", "TRAIN", "UNFOLD"):
+    if k in ("INFER", "TRAIN", "UNFOLD", "FIT"):
       op["xseed"] = rng.subseed()
+    if k == "FIT":
+      op["steps"] = rng.randrange(1, 4)
     if k == "JUMP":
       if rng.chance(0.7):
         op["v"] = rng.pick([-1, 0, 1])
@@ -682,7 +705,9 @@ def directed():
             for s in range(5):
               ops.append({"k": "TRAIN", "xseed": 10 + s})
               ops.append({"k": "INFER", "xseed": 20 + s})
-            ops += [{"k": "STATS", "kind": "tiny_var", "seed": 3},
+            ops += [{"k": "FIT", "steps": 2, "xseed": 40},
+                    {"k": "INFER", "xseed": 41},
+                    {"k": "STATS", "kind": "tiny_var", "seed": 3},
                     {"k": "INFER", "xseed": 31},
                     {"k": "STATS", "kind": "neg_gamma", "seed": 4},
                     {"k": "INFER", "xseed": 32},
